@@ -26,6 +26,8 @@ def adversarial_payloads(rng):
         out.append("<challenge xmlns='%s'>%s</challenge>" % (sasl, b64(raw)))
     for raw in (b'nonce="', b'nonce=,realm=', b'realm="' + b"x" * 3000 + b'",nonce="n"', b'nonce="n",qop="' + b"q" * 2000 + b'"', b"=", b",", b'nonce="n\\"', b'a=b,nonce=n'):
         out.append("<challenge xmlns='%s'>%s</challenge>" % (sasl, b64(raw)))
+    for q in ("auth-int, auth", "auth , auth-int", " auth", "auth-int,,auth", ", ,", "auth-conf auth", "\tauth"):
+        out.append("<challenge xmlns='%s'>%s</challenge>" % (sasl, b64(('realm="r",nonce="n",qop="%s",charset=utf-8,algorithm=md5-sess' % q).encode())))
     out.append("<challenge xmlns='%s'>%s</challenge>" % (sasl, "A" * 7))
     out.append("<stream:error/>")
     out.append("<stream:error><text xmlns='urn:ietf:params:xml:ns:xmpp-streams'/></stream:error>")
@@ -110,6 +112,25 @@ def mutation_lines(chk, n):
             cmds += ["disc", "run", "clock 2000", "run"]
         cmds += ["run", "is", "connect client", "run", "rx " + HDR.encode().hex(), "run", "run", "is", "release"]
         lines.append(";".join(cmds))
+    # every hostile payload where a SASL exchange waits for it (per mechanism), and on an established stream
+    for mech in ("DIGEST-MD5", "SCRAM-SHA-1", "SCRAM-SHA-256-PLUS", "PLAIN"):
+        for pl in pay:
+            pre = [HDR, negsim.item_xml(negsim.features(False, [mech]))]
+            cmds = ["conn", "log", "jid " + H("user@example.com/res"), "pass " + H("secret"), "flags 4" if "PLUS" in mech else "flags 0",
+                    "cb %s %s" % (H("tls-exporter"), "00" * 32), "connect client", "run"]
+            for c in pre:
+                cmds += ["rx " + c.encode().hex(), "run", "run"]
+            cmds += ["rx " + pl.encode("latin1").hex(), "run", "run", "run", "is", "rxclose", "run", "run", "is",
+                     "connect client", "run", "rx " + HDR.encode().hex(), "run", "is", "release"]
+            lines.append(";".join(cmds))
+    done = ["".join(negsim.item_xml(i) for i in c) for c in negsim.happy_client(tls=False, session="req", sm=True)]
+    for pl in pay:
+        cmds = ["conn", "log", "jid " + H("user@example.com/res"), "pass " + H("secret"), "smcb", "hdef 0 s - - - 1", "hadd 0", "connect client", "run"]
+        for c in done:
+            cmds += ["rx " + c.encode().hex(), "run", "run"]
+        cmds += ["rx " + pl.encode("latin1").hex(), "run", "run", "send " + H("<message id='u'/>"), "run", "is", "rxclose", "run", "run", "is",
+                 "connect client", "run", "rx " + HDR.encode().hex(), "run", "is", "release"]
+        lines.append(";".join(cmds))
     # malformed chunks that fill the 4096-byte read buffer (exactly, and around it), with the logger installed
     for stage in (0, 1, 2):
         pre = [HDR, negsim.item_xml(negsim.features(False, ["PLAIN"]))][:stage]
@@ -153,7 +174,7 @@ def run(chk):
     n = 4000 if chk.tier == "thorough" else 500
     lines = mutation_lines(chk, n)
     exe = vlib.build_simworld()
-    outs = vlib.run_parallel(exe, lines, timeout=600)
+    outs = vlib.run_parallel(exe, lines, timeout=40, per_case_timeout=8)
     for l, o in zip(lines, outs):
         chk.evaluations += 1
         chk.count("mutation")
